@@ -100,9 +100,14 @@ type VLine struct {
 
 var vLong520 = strings.Repeat("a", 520)
 var vLong600 = strings.Repeat("é", 300)
+var vLong4 = strings.Repeat("\U0001F600", 140)
+var vLong3 = strings.Repeat("\u20ac", 190)
 
 // vTexts are the trailing-text values of C15's alphabet.
-var vTexts = []string{"hi", "", ":x", "a b", "x\ry", "x\x00y", "x\rQUIT :injected", vLong600, vLong520, "ünï", "x\ny", "x\n:b!ub@robust/0x5 PRIVMSG #c :forged"}
+var vTexts = []string{"hi", "", ":x", "a b", "x\ry", "x\x00y", "x\rQUIT :injected", vLong600, vLong520, "ünï", "x\ny", "x\n:b!ub@robust/0x5 PRIVMSG #c :forged",
+	// long runs of 4-byte and 3-byte characters at every byte alignment: the 510-byte cut of a relayed line
+	// then falls after the 1st, 2nd or 3rd byte of a character
+	vLong4, "a" + vLong4, "aa" + vLong4, "aaa" + vLong4, vLong3, "a" + vLong3, "aa" + vLong3}
 
 func vClientLines(now int64, full bool) []VLine {
 	var ls []VLine
@@ -122,7 +127,7 @@ func vClientLines(now int64, full bool) []VLine {
 		"PASS :captcha="+tok(fmt.Sprintf("okay:login:%d:", now)), "PASS :captcha="+tok(fmt.Sprintf("login:%d:", now)), "PASS :captcha="+vCaptcha(vSecret, fmt.Sprintf("okay:login:%d:", now), "authXXXX", true),
 		"PASS :captcha="+tok(fmt.Sprintf("okay:login:%d:", now-int64(6*time.Minute))), "PASS :captcha=x.y", "PASS :captcha=!.!.!")
 	add("oper", "OPER root operpw", "OPER root wrong", "OPER nobody operpw", "OPER root", "OPER root :", "OPER", "OPER admin otherpw")
-	add("join", "JOIN #c", "JOIN #C", "JOIN #d", "JOIN #new", "JOIN #c,#d", "JOIN #c key", "JOIN #c KEY", "JOIN #c wrong", "JOIN #c,#d key,key2", "JOIN c", "JOIN #", "JOIN", "JOIN :", "JOIN #c,", "JOIN ,", "JOIN #c,#c",
+	add("join", "JOIN #c", "JOIN #C", "JOIN #d", "JOIN #new", "JOIN #c,#d", "JOIN #c key", "JOIN #c KEY", "JOIN #c wrong", "JOIN #c,#d key,key2", "JOIN #new,#c", "JOIN #new,#d,#c", "JOIN #d,#new", "JOIN c", "JOIN #", "JOIN", "JOIN :", "JOIN #c,", "JOIN ,", "JOIN #c,#c",
 		"JOIN #"+strings.Repeat("x", 32), "JOIN #"+strings.Repeat("x", 33), "JOIN #a\x07b", "JOIN 0",
 		"JOIN #c "+tok(okJoin), "JOIN #c "+vCaptcha(vSecret, okJoin, "authXXXX", true), "JOIN #c "+tok(fmt.Sprintf("join:%d:#c", now)),
 		"JOIN #c "+tok(fmt.Sprintf("login:%d:", now)), "JOIN #c "+tok(fmt.Sprintf("okay:join:%d:#c", now-int64(6*time.Minute))),
@@ -245,6 +250,12 @@ func vServiceLines(pseudo []string) []VLine {
 			pre+"PRIVMSG #c :hi from services", pre+"PRIVMSG a :hi", pre+"PRIVMSG b :hi", pre+"PRIVMSG nobody :x", pre+"PRIVMSG #none :x", pre+"NOTICE a :note", pre+"NOTICE #c :note", pre+"PRIVMSG a :", pre+"PRIVMSG", pre+"NOTICE #d :x",
 			pre+"INVITE a #c", pre+"INVITE b #c", pre+"INVITE c #c", pre+"INVITE nobody #c", pre+"INVITE a #none", pre+"INVITE c #d",
 			pre+"QUIT :bye", pre+"QUIT")
+	}
+	// prefixes that are not the link's: a nickname nobody owns, and the nickname of an ordinary client
+	for _, p := range []string{"Ghost", "a"} {
+		pre := ":" + p + " "
+		add(pre+"JOIN #new", pre+"JOIN #c", pre+"JOIN #new,#c", pre+"PART #c", pre+"KICK #c b :x", pre+"MODE #c +o b", pre+"TOPIC #c "+p+" 1422134861 :t",
+			pre+"PRIVMSG #c :x", pre+"INVITE b #c", pre+"KILL b :x", pre+"QUIT :x")
 	}
 	for _, t := range vTexts {
 		add(":ChanServ PRIVMSG #c :"+t, ":ChanServ NOTICE a :"+t, ":ChanServ KICK #c b :"+t, ":ChanServ TOPIC #c ChanServ 1 :"+t, "SVSHOLD held 60 :"+t, ":ChanServ QUIT :"+t, ":ChanServ KILL b :"+t)
